@@ -97,7 +97,6 @@ def decSpec (s : String) : Option Spec :=
 def showErr : Err → String
   | .indexSize => "IndexSizeErr" | .hierarchy => "HierarchyRequestErr" | .noMod => "NoModificationAllowedErr"
   | .syntaxErr => "SyntaxErr" | .namespaceErr => "NamespaceErr" | .invalidMod => "InvalidModificationErr"
-  | .attributeErr => "AttributeError"
 
 def showOutcome : Outcome → String
   | .ok i => "OK " ++ toString i
